@@ -123,6 +123,13 @@ func GenTree(r *Rng, o TreeOpts) *Tree {
 		t.FPs[name] = g.FPs
 		t.Sent[name] = g.Prefix
 	}
+	if r.Chance(50) && !o.WantFP {
+		// a page of plain HTML and an argument-less component that reads the caller's variables
+		t.add("components/inh", "component", "<u>INH {{ n1 }}/{{ s0 }}/{{ b0 }}</u>")
+		t.add("inhpage", "page", "<p>INHP_1 only html</p>\n@component(\"components/inh\")\n<p>INHP_2</p>")
+		t.Pages = append(t.Pages, "inhpage")
+		t.Sent["inhpage"] = "INHP"
+	}
 	switch o.ErrPage {
 	case "valid":
 		t.Cfg.ErrPage = "errors/500"
